@@ -129,6 +129,84 @@ def body(S, t, part):
     S.note("changes", len(changes))
 
 
+def body_window(S, t, part):
+    """ignore_window_ms (recycle) and time-qualified configured events (ev|250ms): posted once per qualifying change"""
+    m = t.machine
+    S.now_symbolic(t.loop)
+    name = part["switch"]
+    sw = m.switches[name]
+    got = {"a": [], "i": []}
+    if name == "s_win":
+        m.events.add_handler("ev_win_active", lambda **kwargs: got["a"].append(t.loop.time()))
+        m.events.add_handler("ev_win_inactive", lambda **kwargs: got["i"].append(t.loop.time()))
+    else:
+        m.events.add_handler("ev_t_active", lambda **kwargs: got["a"].append(t.loop.time()))
+        m.events.add_handler("ev_t_inactive", lambda **kwargs: got["i"].append(t.loop.time()))
+    t0 = t.loop.time()
+    changes = []
+    state = sw.state
+    for i in range(part["n"]):
+        gap = S.real("gap%d" % i, 0.001, 0.6)
+        t.advance_time_and_run(gap)
+        bit = 1 if S.bool("state%d" % i) else 0
+        m.switch_controller.process_switch_obj(sw, bit, True)
+        if bit != state:
+            state = bit
+            changes.append((t.loop.time(), bit))
+    t.advance_time_and_run(2)
+    end = t.loop.time()
+    if name == "s_timed_ev":
+        # ev_t_active|250ms: once, 250 ms after each activation that lasted that long; ev_t_inactive|400ms likewise
+        for st, hold, key in ((1, 0.25, "a"), (0, 0.4, "i")):
+            exp = []
+            for j, (tc, b) in enumerate(changes):
+                if b != st:
+                    continue
+                nxt = changes[j + 1][0] if j + 1 < len(changes) else end
+                S.assume(tc + hold != nxt)
+                if tc + hold < nxt:
+                    exp.append(tc + hold)
+            if got[key] != exp:
+                raise Violation("configured-timed-event-once-per-qualifying-change", "Switch._create_activation_event", "state %d|%s s: events at %s expected %s; changes %s" % (
+                    st, hold, [x - t0 for x in got[key]], [x - t0 for x in exp], [(c - t0, b) for c, b in changes]))
+    else:
+        # ignore window 100 ms: the first change posts at once and opens a window; changes inside the window post nothing;
+        # when the window closes in a state different from the one that opened it, that state is posted then
+        exp = {"a": [], "i": []}
+        window_end = None
+        opened_state = None
+        k = 0
+        timeline = list(changes)
+        while k < len(timeline) or window_end is not None:
+            nxt_change = timeline[k] if k < len(timeline) else None
+            if window_end is not None and (nxt_change is None or window_end < nxt_change[0]):
+                # window closes
+                cur = opened_state
+                for tc, b in changes:
+                    if tc <= window_end:
+                        cur = b
+                if cur != opened_state:
+                    exp["a" if cur else "i"].append(window_end)
+                window_end = None
+                continue
+            if nxt_change is None:
+                break
+            tc, b = nxt_change
+            if window_end is not None:
+                S.assume(tc != window_end)
+            if window_end is None:
+                exp["a" if b else "i"].append(tc)
+                window_end = tc + 0.1
+                opened_state = b
+            k += 1
+        for key in ("a", "i"):
+            if got[key] != exp[key]:
+                raise Violation("ignore-window-posts-once", "Switch._post_events_with_recycle", "%s events at %s expected %s; changes %s" % (
+                    "active" if key == "a" else "inactive", [x - t0 for x in got[key]], [x - t0 for x in exp[key]], [(c - t0, b) for c, b in changes]))
+    S.note("nontrivial", len(changes) >= 1)
+    S.note("changes", len(changes))
+
+
 def _seqs(n, two):
     out = []
 
@@ -165,5 +243,6 @@ def scenarios(tier):
     else:
         parts += [dict(switch=sw, seq=q, same_state=True) for sw in ("s_no", "s_nc") for q in ("ABCRR", "ABRCR", "RABCR")]
         parts += [dict(switch=sw, seq=q, sym_logical=True) for sw in ("s_no", "s_nc") for q in ("RRRR", "RARR", "ARRD")]
-    return [Scenario("timeline", setup, body, parts, teardown=teardown, part_budget=90 if tier == "quick" else 300,
-                     per_path_timeout=30)]
+    wparts = [dict(switch="s_timed_ev", n=3 if tier == "quick" else 4), dict(switch="s_win", n=3 if tier == "quick" else 4)]
+    return [Scenario("timeline", setup, body, parts, teardown=teardown, part_budget=70 if tier == "quick" else 300, per_path_timeout=30),
+            Scenario("configured_events", setup, body_window, wparts, teardown=teardown, part_budget=70 if tier == "quick" else 300, per_path_timeout=30)]
